@@ -4,7 +4,7 @@
    the depth-0 shells of evm.Call / evm.Create); the EVM interpreter is the parameter
    `run`, constrained only by the premises written in each statement. *)
 From AQ Require Import Lib.Bytes Tx.Transition Tx.Supply Tx.TxProofs Tx.SupplyProofs Generated.GenParamsTx.
-From AQ Require Evm.Interp Evm.InterpProofs Tx.Compose.
+From AQ Require Evm.Interp Evm.InterpProofs Tx.Compose Tx.InterpNonce Tx.ComposeNonce.
 Import ListNotations.
 Local Open Scope N_scope.
 
@@ -283,6 +283,39 @@ Theorem C06_gas_accounting_block_evm_partial : forall fuel e code_of stor_of dg 
 Proof. exact Compose.gas_accounting_block_evm. Qed.
 Print Assumptions C06_gas_accounting_block_evm_partial.
 
+(* 8b. The nonce clause with the interpreter inside.  Interpreter level (every instruction, CREATE included, every
+       code and fuel): an account a without code whose nonce is not 0, and in which no frame executes (it is not the
+       `self` of the frame, or the frame has no code — which is the case whenever a frame is entered at a), keeps its
+       nonce, stays without code and is never flagged suicided.  (A sender WITH code would execute as `self` when
+       called back, could CREATE — bumping its own nonce — or SELFDESTRUCT: the clause is then false, which is why
+       transactions from contract accounts do not exist.) *)
+Theorem C06_codeless_account_quiet : forall a n fuel e w fr,
+  (n <> 0)%Z -> Interp.get_code w a = [] -> Interp.get_nonce w a = n -> InterpNonce.nosui a w ->
+  (Interp.f_self fr <> a \/ Interp.f_code fr = []) ->
+  let o := Interp.interp fuel e w fr in
+  Interp.get_code (Interp.o_world o) a = [] /\ Interp.get_nonce (Interp.o_world o) a = n /\ InterpNonce.nosui a (Interp.o_world o).
+Proof. exact InterpNonce.codeless_account_quiet. Qed.
+Print Assumptions C06_codeless_account_quiet.
+
+(* ... and composed: nonce' sender = nonce sender + 1 for a transaction executed by the modelled EVM.  No premise on the
+   interpreter is left; what remains is about the sender (it has no code, is not the zero address, its nonce is below
+   2^64-1), the code store (digest 0 is the empty code) and, for creations, the address-derivation premise.
+   `_partial` only because a creation request still runs the failing stub of Compose.interp_runner.
+   C06_tx_balance_equation is NOT given an interpreter-inside form: its premise (the execution moves no value to or
+   from the sender and the coinbase) is a property of the particular contract code, not of the interpreter — a callee
+   may legitimately pay the sender or the coinbase (scenarios pay-back-sender / pay-coinbase). *)
+Theorem C06_tx_nonce_evm_partial : forall fuel e code_of stor_of dg sg,
+  code_of 0 = [] -> InterpProofs.wf_env e ->
+  forall cfg num coinbase idx s pool cum m r,
+  m_gas m < two64 ->
+  apply_transaction cfg num coinbase (Compose.interp_runner fuel e code_of stor_of dg sg) idx s pool cum m = TxOk r ->
+  nonce (get (m_from m) s) < max_u64 ->
+  m_from m <> 0 -> code (get (m_from m) s) = 0 ->
+  (m_to m = None -> create_address (m_from m) (nonce (get (m_from m) s)) <> m_from m) ->
+  nonce (get (m_from m) (x_state r)) = nonce (get (m_from m) s) + 1.
+Proof. intros fuel e code_of stor_of dg sg H0 Hwf cfg num coinbase idx s pool cum m r. exact (ComposeNonce.tx_nonce_evm fuel e code_of stor_of dg sg H0 cfg num coinbase idx s pool cum m r Hwf). Qed.
+Print Assumptions C06_tx_nonce_evm_partial.
+
 (* 9. One statement over every block (any number of transactions, list induction): gas used = sum over the receipts,
       every receipt's cumulative gas is the running sum and never decreases, the total fits the block gas limit, one
       receipt per transaction; before each transaction the pool is the limit minus the gas used so far and the
@@ -327,7 +360,8 @@ Example C06_evm_example :
   exists cfg r, builtin_cfg 0 = Some cfg /\
     Compose.apply_transaction_i 1000 cfg 40000 0xc0 8000000 1000 1 s 8000000 0 m = TxOk r /\
     t_used (x_tdb r) = 41006 /\ t_failed (x_tdb r) = false /\
-    stor (get 0xbb (x_state r)) = Compose.sg_c [(0, 1)]%Z /\ bal (get 0xbb (x_state r)) = 5%Z.
+    stor (get 0xbb (x_state r)) = Compose.sg_c [(0, 1)]%Z /\ bal (get 0xbb (x_state r)) = 5%Z /\
+    Compose.code_of_c 0 = [] /\ code (get 0xaa s) = 0 /\ nonce (get 0xaa (x_state r)) = 1.
 Proof.
   cbv zeta. split; [apply Compose.interp_env_wf|].
   eexists. eexists. split; [vm_compute; reflexivity|]. split; [vm_compute; reflexivity|]. vm_compute. repeat split; reflexivity.
